@@ -56,6 +56,16 @@ Oracle(tree, ch) ==
   /\ \A a \in A : IsRelOrBirth(a.op) => ~IsEphemeralSpend(tree, a.spend)
   /\ \A a \in A : Holds(a, ch)
 
+\* the bundle with every lock / birth condition removed: what the other rules say about it
+IsLockCond(c) == IsPair(c) /\ IsAtom(c.l) /\ Len(c.l.a) = 1 /\ c.l.a[1] \in LockOps
+RECURSIVE StripConds(_)
+StripConds(x) == IF IsAtom(x) THEN x
+                 ELSE IF IsLockCond(x.l) THEN StripConds(x.r) ELSE Cons(x.l, StripConds(x.r))
+StripSpend(sp) == Cons(sp.l, Cons(sp.r.l, Cons(sp.r.r.l, Cons(StripConds(sp.r.r.r.l), sp.r.r.r.r))))
+RECURSIVE StripSpends(_)
+StripSpends(x) == IF IsAtom(x) THEN x ELSE Cons(StripSpend(x.l), StripSpends(x.r))
+StripLocks(tree) == Cons(StripSpends(tree.l), tree.r)
+
 (* ---- the implementation's route ---- *)
 SatAdd32(a, b) == SatAdd(a, b, U32MAX)
 SatAdd64(a, b) == SatAdd(a, b, U64MAX)
